@@ -379,7 +379,8 @@ func main() {
 	for _, n := range names {
 		obj := p.Types.Scope().Lookup(n)
 		if obj == nil {
-			g.fail("type %s not found", n)
+			// keep the generated file loadable: the GenOk obligation about this type then fails
+			fmt.Fprintf(&b, "(* type %s not found in the source *)\nDefinition f_%s : list field := [].\nDefinition t_%s : ty := TStruct f_%s.\n\n", n, n, n, n)
 			continue
 		}
 		st, ok := obj.Type().Underlying().(*types.Struct)
@@ -398,7 +399,7 @@ func main() {
 	if c, ok := p.Types.Scope().Lookup("TypeBounds").(*types.Const); ok {
 		fmt.Fprintf(&b, "Definition bounds_type_name : string := %s.\n\n", tr.CoqString(constant.StringVal(c.Val())))
 	} else {
-		g.fail("constant TypeBounds not found")
+		b.WriteString("(* constant TypeBounds not found *)\nDefinition bounds_type_name : string := \"\".\n\n")
 	}
 	// element types of the OSM container slices (Nodes []*Node ...)
 	var order []string
